@@ -111,6 +111,8 @@ MUTANTS = [
     ("e06", P + "__init__.py", "        try:\n            yaml_bytes = source.read_bytes()\n        except OSError as err:", "        try:\n            yaml_bytes = source.read_bytes()\n        except FileNotFoundError as err:", ["C06"]),
     ("e08", PP + "list_property.py", "        items = list(data.prefixItems or [])", "        items = data.prefixItems or []", ["C20", "C12"]),
     ("e09", PP + "model_property.py", "            required_set.update(sub_prop.required or [])", "            pass", ["C15", "C10"]),
+    ("e10", P + "parser/openapi.py", "            requires_security=bool(data.security),", "            requires_security=False,", ["C03"]),
+    ("e11", T + "endpoint_macros.py.jinja", "{% if endpoint.requires_security %}", "{% if false %}", ["C03"]),
     ("d07", PP + "schemas.py", "        for name, existing in self.classes_by_name.items():\n            other =", "        for name, existing in list(self.classes_by_name.items())[1:]:\n            other =", ["C09"]),
 ]
 
